@@ -33,6 +33,8 @@ func universe0() []Ty {
 	out = append(out, Flt(-mf, mf), Flt(0, 1), Flt(1, 1), Flt(0, mf), Flt(-mf, 0), Flt(0.5, 2.5), Flt(math.Inf(-1), math.Inf(1)))
 	out = append(out, Bool(-1), Bool(1), Bool(0))
 	out = append(out, Tspan(MinI, MaxI), Tspan(0, MaxI), Tspan(0, 5), Tspan(1, 1), Tspan(MinI, 0))
+	out = append(out, TstampAll(), Tstamp(TsEpoch, 0, TsMaxSec, TsMaxNs), Tstamp(TsEpoch, 0, TsEpoch+1546300800, 123456789),
+		Tstamp(TsEpoch+1546300800, 123456789, TsEpoch+1546300800, 123456789))
 	// String families
 	for _, r := range []rng{{0, 0}, {1, 1}, {0, 1}, {1, 2}, {2, 5}, {0, 5}, {1, MaxI}, {2, MaxI}} {
 		out = append(out, StrSz(r.lo, r.hi))
